@@ -9,7 +9,7 @@ search: the property's own observables evaluated on the real sampler at every op
 import common
 import corechecks
 
-THEOREMS = ['C01_invariant', 'C01_step', 'C01_association', 'C01_partition']
+THEOREMS = ['C01_invariant', 'C01_step', 'C01_association', 'C01_partition', 'C01_nodupFast']
 MODULE = 'NautilusVerif.Properties.C01'
 FILES = ['nautilus/sampler.py']
 INVARIANTS = ['inshells', 'tlast', 'nodup']
